@@ -6,11 +6,14 @@ mod c02;
 mod c03;
 mod c04;
 mod c04s;
+mod c05;
 mod c13;
 mod c14;
 mod c15;
 mod c16;
+mod c17;
 mod plonkm;
+mod recm;
 mod tamper;
 
 use crate::core::*;
@@ -85,8 +88,10 @@ fn main() {
         "C02" => c02::run(&ctx),
         "C03" => c03::run(&ctx),
         "C04" => c04::run(&ctx),
+        "C05" => c05::run(&ctx),
         "C13" => c13::run(&ctx),
         "C16" => c16::run(&ctx),
+        "C17" => c17::run(&ctx),
         "C14" => c14::run(&ctx),
         "C15" => c15::run(&ctx),
         _ => {
